@@ -112,11 +112,19 @@ def scripted_part(ck):
     with cf.ProcessPoolExecutor(max_workers=sysrun.PROCS, mp_context=mp.get_context("fork")) as ex:
         traces = list(ex.map(_scripted_job, jobs))
     fails, st = psrun.validate(traces)
+    inconclusive = []
     for f in fails:
         tr = traces[f["tid"] - 1]
         for cl in f["clauses"]:
             if psrun.CLAUSE_PROPERTY.get(cl) == "C14" or cl in ("NoRaise", "MB_SameSlots"):
                 sc = tr["meta"]["scripted"]
+                ev = tr["events"][f["l"] - 1]
+                if cl == "NoRaise" and sc.get("small") and "LinAlgError" in str(ev.get("what")):
+                    # the scripted 3-point cluster was resampled (by weight, with replacement) into fewer than d+1 distinct
+                    # points: an exactly singular scale matrix. The scenario's antecedent (a fittable tiny cluster) failed;
+                    # inconclusive, counted, not a verdict (see DESIGN.md section 8.6)
+                    inconclusive.append(tr["meta"]["label"])
+                    continue
                 unpop = len(sc["ltrim"]) < sc["K"]
                 ck.violation(f"scripted:{cl}:" + ("unpopulated-label" if unpop else "all-populated"),
                              f"{cl} fails at event {f['l']} ({f['ev']}) with a scripted clusterer: K={sc['K']}, trimmed pool predicted into {sc['ltrim']} only, resampled particles into all labels",
@@ -126,7 +134,8 @@ def scripted_part(ck):
     if begins == 0:
         raise RuntimeError("vacuous scripted scenarios: kernel never reached")
     ck.sample({"scripted": traces[1]["meta"]["scripted"], "MutateBegin": next((e for e in traces[1]["events"] if e["ev"] == "MutateBegin"), None)})
-    return {"scripted_scenarios": len(traces), "scripted_unpopulated_label_scenarios": nontriv, "scripted_mutate_begins": begins, "scripted_states": st["states"]}
+    return {"scripted_scenarios": len(traces), "scripted_unpopulated_label_scenarios": nontriv, "scripted_mutate_begins": begins, "scripted_states": st["states"],
+            "scripted_inconclusive_singular_tiny_cluster": len(inconclusive)}
 
 
 def main():
